@@ -1314,7 +1314,10 @@ Module FlexTrees.
   Proof. intros. reflexivity. Qed.
   Print Assumptions C04_flex_floor_form.
 
-  (* EXACT: scaling every length of the container's style, of its children's styles, of the input AND the floor by k > 0 scales every
+  (* COUNTERFACTUAL (audit 7b): the right-hand side `flex_alg_t tau'` with tau' = k * tau is NOT the implementation's function unless k = 1
+     (the source's floor is the constant 1.0; no runner executes flex_alg_t for tau <> one) -- this is a lemma about the model that locates
+     the defect, used at tau = tau' (C04_flex_algorithm_homogeneous_partial, C04_blockflex_engine_partial) and at k = 1 (C12), not the
+     property.  As such it is exact: scaling every length of the container's style, of its children's styles, of the input AND the floor by k > 0 scales every
      query the algorithm issues, every layout it stores and its result by k, given scaled answers.  No premise on styles, inputs or answers
      (NaN and infinities included); the floor only has to be positive. *)
   Theorem C04_flex_algorithm_floor_as_length : forall k tau tau', 0 < k -> sc k tau tau' -> gtb tau zero = true ->
@@ -1373,7 +1376,8 @@ Module FlexTrees.
   Proof. intros k tau tau' Hk. exact (bfn_algo_homog_real k Hk tau tau'). Qed.
   Print Assumptions C04_blockflex_algorithm_floor_as_length.
 
-  (* EXACT, no premise on the tree: the conclusion of C04_engine (any related trees -- caches and stored layouts included, e.g. both fresh --,
+  (* COUNTERFACTUAL like C04_flex_algorithm_floor_as_length (the engine with floor k * tau is not the implementation's for k <> 1); no premise
+     on the tree: the conclusion of C04_engine (any related trees -- caches and stored layouts included, e.g. both fresh --,
      related inputs, same fuel: both evaluations fail or both return, related outputs and related trees: EVERY stored layout and cache entry
      scaled) for the engine with floor tau on the tree and the engine with floor k * tau on the scaled tree *)
   Theorem C04_blockflex_engine_floor_as_length : forall k tau tau', 0 < k -> sc k tau tau' -> gtb tau zero = true ->
@@ -1441,3 +1445,128 @@ Module FlexTrees.
   Qed.
   Print Assumptions C04_blockflex_engine_refuted.
 End FlexTrees.
+
+(* ------------------------------------------------------------------------------------------------------------ *)
+(** * The block + flex engine of `FlexTrees` IS the engine `vh taffytree` runs, on trees without grid containers (audit, wave 7b)
+
+   `bf_memo` / `bfn_algo` (Model/BlockFlexK.v) have NO correspondence runner of their own: no `vh` command evaluates them.  The engine that IS
+   run against the implementation, whole trees and several passes, is Model/TaffyRoot.v `real_memo` = Model/Engine.v `memo` over
+   `real_algo` = `taffy_algo taffy_dispatch block_pre abs_child_block taffy_leaf` (Model/TaffyEngineRun.v, `vh taffytree cases`, run by
+   `./check C01 / C05 / C06`).  The theorems below connect the two by PROOF instead of by hand composition:
+     - `bfn_emb` (Model/BlockFlexTaffy.v) reads a BFNode as a style of the complete engine (grid-only fields = Style::DEFAULT);
+     - node level: the two dispatches select the same resumption (leaf / flex_alg / block_alg with the same preprocessing and absolute
+       routine) unless the node is a display:grid node WITH children (BlockFlexK lays it out as a block container; the complete engine
+       runs grid_alg) -- display:none nodes are answered by the engine before any algorithm is selected;
+     - memo key: the same function (every field of the LayoutInput, numbers compared with the instance's `eqb`);
+     - engine level: on every tree -- any cache contents, any stored layouts -- whose skeleton has no display:grid node with children the two
+       memoised evaluations return the same output and the same tree (styles embedded, caches and stored layouts identical), or both fail;
+     - hence the whole-tree theorems of `FlexTrees` hold verbatim for `real_memo`.
+   What is NOT covered by this tie: the runner compares keys by REPRESENTATION (`f32_seqb`, Model/TaffyKey.v) where these theorems use the
+   instance's numeric `eqb` (they differ on NaN and on the sign of zero only: a NaN key never hits here); the runner is over binary32, the
+   theorems over XQ; `compute_root_layout` (Model/TaffyRoot.v taffy_compute_root) is not composed in (the Examples hand the root `root_fin`);
+   the insensitivity premise of the `_partial` theorems still mentions `bf_memo_t (Fin k)`, a function the implementation does not compute. *)
+From TV Require Model.TaffyEngine Model.TaffyRoot Model.BlockFlexTaffy Model.BlockFlexExample2 Proofs.EngineMap Proofs.BlockFlexTaffy Proofs.BlockFlexTaffyClass.
+Module FlexTreesK.
+  Import TV.Model.Common TV.Model.Leaf TV.Model.Scale TV.Model.FlexAlgBase TV.Model.FlexAlgRel.
+  Import TV.Model.Engine TV.Model.EngineRel.
+  Import TV.Model.BlockFlexEngine TV.Model.BlockFlexK TV.Model.BlockFlexExample TV.Model.TaffyEngine TV.Model.TaffyRoot TV.Model.BlockFlexTaffy.
+  Import TV.Model.BlockFlexExample2 TV.Proofs.BlockFlexRel TV.Proofs.BlockFlexExamples TV.Proofs.BlockFlexTaffy.
+  Import ListNotations.
+
+  (* node level, any `Num`: same resumption *)
+  Theorem C04_blockflex_node_is_taffy_node : forall (T : Type) (HN : Num T) (n : BFNode T) (kids : list (BFNode T)) (i : FIn T),
+    (kids = [] \/ display (bfn_core n) <> DGrid) -> bfn_is_none n = false ->
+    real_algo (bfn_emb n) (map bfn_emb kids) i = bfn_algo one BlockEngine.block_pre BlockAbs.abs_child_block n kids i.
+  Proof. intros T HN n kids i. exact (bfn_algo_is_real_algo n kids i). Qed.
+  Print Assumptions C04_blockflex_node_is_taffy_node.
+
+  (* the memo key is the same function *)
+  Theorem C04_blockflex_memo_key_is_taffy_key : forall (T : Type) (HN : Num T) (a b : FIn T),
+    BlockFlexK.fin_eqb a b = TaffyEngine.fin_eqb_with Num.eqb a b.
+  Proof. intros. reflexivity. Qed.
+  Print Assumptions C04_blockflex_memo_key_is_taffy_key.
+
+  (* engine level, any `Num`, ANY tree (warm caches, stored layouts) without grid containers: lockstep *)
+  Theorem C04_blockflex_engine_is_taffy_engine :
+    forall (T : Type) (HN : Num T) fuel (t : tree (BFNode T) (FIn T) (LayoutOutput T) (FLay T)) (i : FIn T),
+      sk_good (BFNode T) bfn_taffy_ok (skel _ _ _ _ t) ->
+      real_memo Num.eqb fuel (tree_map (BFNode T) (TStyle T) (FIn T) (LayoutOutput T) (FLay T) bfn_emb t) i
+      = option_map bf_result_emb (bf_memo fuel t i).
+  Proof. intros T HN fuel t i. exact (bf_memo_is_real_memo fuel t i). Qed.
+  Print Assumptions C04_blockflex_engine_is_taffy_engine.
+
+  (* C04_blockflex_engine_scaled_layouts_partial about the K-run engine: fresh trees of the complete engine that are embeddings of grid-free
+     block + flex trees (the scaled tree is grid-free because the relation keeps `display`: Proofs/BlockFlexTaffyClass.v) *)
+  Theorem C04_taffy_engine_scaled_layouts_partial : forall k, 0 < k ->
+    forall f (t t' : sk (BFNode XQ)) i o T1,
+      sk_goodb t = true ->
+      skrel (BFNode XQ) (bfnode_rel k) t t' ->
+      bf_memo_t (Fin k) f (bfk_fresh t') (fin_scale k i) = bf_memo f (bfk_fresh t') (fin_scale k i) ->
+      real_memo Num.eqb f (taffy_fresh (sk_map bfn_emb t)) i = Some (o, T1) ->
+      exists o' T1',
+        real_memo Num.eqb f (taffy_fresh (sk_map bfn_emb t')) (fin_scale k i) = Some (o', T1') /\ output_rel k o o' /\
+        Forall2 (flay_rel k) (lays (TStyle XQ) (FIn XQ) (LayoutOutput XQ) (FLay XQ) T1) (lays (TStyle XQ) (FIn XQ) (LayoutOutput XQ) (FLay XQ) T1').
+  Proof. exact BlockFlexTaffyClass.real_engine_scaled_layouts'. Qed.
+  Print Assumptions C04_taffy_engine_scaled_layouts_partial.
+
+  (* non-vacuity: the example trees of `FlexTrees` are in the class (10 nodes: block root, leaf, flex row, flex column, hidden and absolute
+     child; the 2-node witness of the refutation), at both scales; the complete engine evaluates the embedded 10-node tree to the same root
+     output and the same stored layouts as `bf_memo` (computed on both sides, not through the theorem) *)
+  Example C04_blockflex_example_trees_are_taffy_trees :
+    sk_goodb fx_tree = true /\ sk_goodb (fx_tree_scaled (5 # 2)) = true /\ sk_goodb fw_tree = true /\ sk_goodb (fw_tree_scaled 4) = true /\
+    match real_memo Num.eqb fx_fuel (taffy_fresh (sk_map bfn_emb fx_tree)) fx_input, bf_memo fx_fuel (bfk_fresh fx_tree) fx_input with
+    | Some (o, T1), Some (o', t1) =>
+        fout_eqb o o' && BX.list_eqb flay_eqb (lays _ _ _ _ T1) (lays _ _ _ _ t1) && (10 =? length (lays _ _ _ _ T1))%nat
+    | _, _ => false
+    end = true.
+  Proof. repeat split; vm_compute; reflexivity. Qed.
+  Print Assumptions C04_blockflex_example_trees_are_taffy_trees.
+
+  (* the restriction to grid-free trees is NEEDED: a display:grid root (width 300, padding 4) with two leaf children is a grid container for
+     the complete engine (rows 36 and 8 high: the first child's box is 64 x 36 at (9, 4), the second at y = 40) and a block container for
+     BlockFlexK (64 x 29, the second at y = 33); the tree is outside the class *)
+  Example C04_blockflex_grid_container_excluded_example :
+    sk_goodb gx_tree = false /\ real_vs_bf gx_tree fx_input = Some false /\
+    real_boxes gx_tree fx_input = [fbox 0 0 0 0; fbox 9 4 64 36; fbox 4 40 300 8] /\
+    fx_boxes gx_tree fx_input [fbox 0 0 0 0; fbox 9 4 64 29; fbox 4 33 300 8] = true.
+  Proof. repeat split; vm_compute; reflexivity. Qed.
+  Print Assumptions C04_blockflex_grid_container_excluded_example.
+
+  (* ---- non-vacuity of the premises of the `_partial` theorems of `FlexTrees` where they BITE (audit finding: in the 10-node tree of
+     C04_blockflex_engine_example the floor is never read on its negative side -- an infinite floor changes nothing there, so the
+     insensitivity premise held for want of a reader) *)
+
+  (* the insensitivity premise of C04_blockflex_engine_partial on a tree where the floor IS read: fx_tree2 (Model/BlockFlexExample2.v) has a
+     flex ROW container sized by content whose first item has flex-basis 40 > content 25, flex-shrink 1 -- the floored quantity
+     max(tau, shrink * basis) is evaluated (an infinite floor, or floor 100, changes the layout) and is the same at floor 1 and floor 5/2
+     (40, resp. 100 on the scaled tree); both sides evaluate, every stored layout and the root output x 5/2; also an instance of the K-tied
+     form (the trees are grid-free, the complete engine computes the same layouts) *)
+  Example C04_blockflex_engine_example_floor_read :
+    skrel (BFNode XQ) (bfnode_rel (5 # 2)) fx_tree2 (fx_tree2_scaled (5 # 2)) /\
+    bf_memo_t (Fin (5 # 2)) fx_fuel (bfk_fresh (fx_tree2_scaled (5 # 2))) (fin_scale (5 # 2) fx_input)
+      = bf_memo fx_fuel (bfk_fresh (fx_tree2_scaled (5 # 2))) (fin_scale (5 # 2) fx_input) /\
+    fx_floor_insensitive PInf fx_tree2 fx_input = false /\
+    fx_floor_insensitive (Fin 100) fx_tree2 fx_input = false /\
+    fx_scaled_ok (5 # 2) fx_tree2 (fx_tree2_scaled (5 # 2)) fx_input = true /\
+    sk_goodb fx_tree2 = true /\ sk_goodb (fx_tree2_scaled (5 # 2)) = true /\
+    real_vs_bf fx_tree2 fx_input = Some true /\ real_vs_bf (fx_tree2_scaled (5 # 2)) (fin_scale (5 # 2) fx_input) = Some true.
+  Proof.
+    split; [apply fx_scaled_rel; reflexivity|].
+    split; [vm_compute; reflexivity|]. repeat split; vm_compute; reflexivity.
+  Qed.
+  Print Assumptions C04_blockflex_engine_example_floor_read.
+
+  (* the premise of C04_flex_algorithm_homogeneous_partial on ONE flex container run through `alg_run` (the resumption answered by an
+     oracle that returns the known dimensions, 30k x 12k where unknown): row container of width 200, max-height 90, padding 3,
+     border 1/2/3/1, gap 6, two content-box items with padding and border (flex-basis 40; width 60, min-height 20, grow 1), definite
+     available space: the class premise holds, the container is 209 x 38 with the items at (4, 6) 45 x 28 and (55, 6) 149 x 28, and the
+     run at k = 4 (styles, input and answers x 4) returns the output and both stored layouts x 4 *)
+  Example C04_flex_algorithm_partial_example :
+    FlexAlgT.flex_main_not_intrinsic ex_cont ex_in = true /\
+    run_boxes (run_k 1 ex_cont [ex_a; ex_b] ex_in)
+      = Some (Fin 209, Fin 38, [(0%nat, (Fin 4, Fin 6, Fin 45, Fin 28)); (1%nat, (Fin 55, Fin 6, Fin 149, Fin 28))]) /\
+    scaled_run_eqb 4 (run_k 1 ex_cont [ex_a; ex_b] ex_in)
+                     (run_k 4 (fstyle_scale 4 ex_cont) (map (fstyle_scale 4) [ex_a; ex_b]) (fin_scale 4 ex_in)) = true.
+  Proof. repeat split; vm_compute; reflexivity. Qed.
+  Print Assumptions C04_flex_algorithm_partial_example.
+End FlexTreesK.
